@@ -164,6 +164,9 @@ def build_world() -> World:
 
     ax("D-states-wf", "forall[Node, int](lambda n, i: implies(n != None and 0 <= i and i < len(n.states), keys(n.states)[i] in n.states), lambda n, i: keys(n.states)[i])",
        "definition (python dict: every enumerated key is a key of the dict)")
+    ax("D-states-wf2", "forall[Node, str](lambda n, k: implies(n != None and k in n.states, 0 <= keyidx(n.states, k) and keyidx(n.states, k) < len(n.states) and keys(n.states)[keyidx(n.states, k)] == k), lambda n, k: k in n.states)",
+       "definition (python dict: every key of the dict is enumerated)")
+    ax("D-states-len", "forall[Node](lambda n: len(n.states) >= 0, lambda n: len(n.states))", "definition (python dict: a length is not negative)")
 
     # child_toward(d, t): the child of d on the path down to t (defined when t is a proper descendant of d)
     w.fn("child_toward", [Node, Node], Node)
